@@ -39,7 +39,8 @@ class IterBoom(RuntimeError):
 
 
 class Worker:
-    def __init__(self, name, tests, raise_at=None, use_times=True):
+    def __init__(self, name, tests, raise_at=None, use_times=True, native=False):
+        self.native = native  # speaks StreamResult itself (ConcurrentStreamTestSuite only)
         self.name = name
         self.tests = tests  # [(id, outcome)]
         self.raise_at = raise_at
@@ -56,6 +57,13 @@ class Worker:
             for j, (tid, outcome) in enumerate(self.tests):
                 if self.raise_at == j:
                     raise WorkerBoom(self.name)
+                if self.native:
+                    # replays recorded event dicts: every field is given, the timestamp as None
+                    final = {"addSuccess": "success", "addFailure": "fail", "addSkip": "skip"}[outcome]
+                    result.status(test_id=tid, test_status="inprogress", test_tags=None, runnable=True, file_name=None, file_bytes=None, eof=False, mime_type=None, route_code=None, timestamp=None)
+                    result.status(test_id=tid, test_status=None, test_tags=None, runnable=True, file_name="log", file_bytes=b"x", eof=True, mime_type="text/plain", route_code=None, timestamp=None)
+                    result.status(test_id=tid, test_status=final, test_tags={"n"}, runnable=True, file_name=None, file_bytes=None, eof=False, mime_type=None, route_code=None, timestamp=None)
+                    continue
                 t = PlaceHolder(tid)
                 if self.use_times:
                     result.time(c12.TEST_TIMES[tid][0])
@@ -82,6 +90,7 @@ CONFIGS = {
     "w2same": [([("a1", "addSuccess"), ("a2", "addFailure")], None), ([("b1", "addSkip")], None)],
     "w2none": [([("a1", "addSuccess")], None), ([("b1", "addError"), ("b2", "addSuccess")], None)],
     "w1empty": [([], None)],
+    "w2native": [([("a1", "addSuccess")], None), ([("b1", "addFailure"), ("b2", "addSkip")], None, "native")],
     "w2x2": [([("a1", "addSuccess"), ("a2", "addFailure")], None), ([("b1", "addSkip"), ("b2", "addError")], None)],
     "w3x1": [([("a1", "addSuccess")], None), ([("b1", "addFailure")], None), ([("c1", "addSkip")], None)],
     "w4": [([("a1", "addSuccess")], None), ([("b1", "addFailure")], None), ([("c1", "addSkip")], None), ([], 0)],
@@ -96,7 +105,7 @@ def routes_of(config):
 
 
 def make_workers(config):
-    return [Worker("w%d" % i, tests, raise_at) for i, (tests, raise_at) in enumerate(CONFIGS[config])]
+    return [Worker("w%d" % i, spec[0], spec[1], native=len(spec) > 2) for i, spec in enumerate(CONFIGS[config])]
 
 
 class Observer:
@@ -314,7 +323,7 @@ def _norm_event(d, route=None, set_route=True):
     d = dict(d)
     if set_route:
         d["route_code"] = route
-    d["timestamp"] = "T" if d.get("timestamp") is not None else None
+    d["timestamp"] = "T"  # presence is checked on the caller's result; values are wall-clock or supplied
     if d.get("file_name") == "traceback":
         # traceback text (and hence its chunking) depends on the call stack: keep one token
         d["file_bytes"] = b"<tb>"
@@ -540,6 +549,7 @@ def plan(tier):
                 out.append((kind, "w2same", (2, 0), None, False))
                 out.append((kind, "w2none", (2, 0), None, False))
                 out.append((kind, "w2same", (1, 1), None, False))
+                out.append((kind, "w2native", (1, 1), None, False))
             # aborts: make_tests failing after k sub-suites, interrupt at queue.get
             out.append((kind, "w2", (2, 0), 0, False))
             out.append((kind, "w2", (2, 0), 1, False))
